@@ -1248,11 +1248,11 @@ func (e *grExec) mutate(cmd string, a []string) (out string) {
 		return "ok"
 	case "node.new":
 		k := id(3)
-		if k < 0 {
-			acmelib.NewNode(a[1], acmelib.NodeID(uint32(id(2))), k) // panics (makeslice)
-			return "unsupported"
+		cnt := k // a negative count is treated as zero by NewNode
+		if cnt < 0 {
+			cnt = 0
 		}
-		if e.nodes[id(0)] != nil || len(a) != 4+k {
+		if e.nodes[id(0)] != nil || len(a) != 4+cnt {
 			return "unsupported"
 		}
 		seen := map[int]bool{}
@@ -1625,7 +1625,11 @@ func (g *grGen) newNode() {
 	if g.r.Intn(12) == 0 {
 		k = 0
 	}
-	l := sprintf("gr node.new %d %s %d %d", n, g.name(), g.nid(), k)
+	kk := k
+	if k == 0 && g.r.Intn(2) == 0 {
+		kk = -1 - g.r.Intn(3) // NewNode treats a negative count as zero
+	}
+	l := sprintf("gr node.new %d %s %d %d", n, g.name(), g.nid(), kk)
 	var ids []int
 	for j := 0; j < k; j++ {
 		i := g.fresh()
@@ -1851,7 +1855,17 @@ func (g *grGen) step() {
 		if msg := ex.msgs[m]; msg != nil && msg.SenderNodeInterface() != nil && r.Intn(10) != 0 {
 			return
 		}
-		g.emit(sprintf("gr iface.addSent %d %d", g.someIface(), m))
+		i := g.someIface()
+		if ni := ex.ifaces[i]; ni != nil && r.Intn(6) == 0 {
+			// a message that the interface receives (refused: receiver is sender)
+			for _, x := range ni.ReceivedMessages() {
+				if x.SenderNodeInterface() == nil {
+					m = ex.msgID[x]
+					break
+				}
+			}
+		}
+		g.emit(sprintf("gr iface.addSent %d %d", i, m))
 	case k < 147:
 		i := g.someIface()
 		m := g.anyOf(g.msgs)
